@@ -390,3 +390,54 @@ Definition write_ttml_c (w : wdoc) : res xnode :=
              ++ [(nm s_xmlns s_ttm, ns_ttm); (nm s_xmlns s_tts, ns_tts)])
             ([XElem (nm ns_ttml s_head) [] (md ++ [styling; layout])]
              ++ [XElem (nm ns_ttml s_body) [] [XElem (nm ns_ttml s_div) [] ps]])).
+
+(* ================= E. nil items (ttml.go:690) and guard-dropped variants ================= *)
+(* Subtitles.Items is a []*Item whose elements may be nil: WriteToTTML starts with s.Items = nonNilItems(s.Items)
+   (ttml.go:690) and refuses the list when nothing is left; then it proceeds as above on the remaining items *)
+Definition write_ttml_items_c (items : list (option ttc_witem)) (w : wdoc) : res xnode :=
+  write_ttml_c (mkWdoc (w_meta w) (w_styles w) (w_regions w) (somes items)).
+
+(* the same functions with one guard made optional ([true] = the code as it is): what each guard protects *)
+(* ttmlOutStyleAttributesFromStyleAttributes without "if s == nil" *)
+Definition out_attrs_g (guard : bool) (s : option tattrs) : res tattrs :=
+  if guard && negb (is_some s) then Ok no_attrs else deref s 560.
+(* the paragraph without "if len(ttmlSubtitle.Items) > 0" before Items[:len-1] *)
+Definition out_p_g (guard : bool) (it : ttc_witem) : res xnode :=
+  do a <- out_attrs_c (wi_inline it);
+  do rg <- ttc_id_of (wi_region it) 729;
+  do sy <- ttc_id_of (wi_style it) 734;
+  do items <- out_lines_c (wi_runs it);
+  do items' <- (if negb guard || Nat.ltb 0 (length items) then ttc_drop_last items 763 else Ok items);
+  Ok (XElem (nm ns_ttml s_p)
+            ([(nm [] s_begin, format_ttml (wi_start it)); (nm [] s_end, format_ttml (wi_stop it))]
+             ++ opt_attr [] s_region (Some rg) ++ opt_attr [] s_style (Some sy) ++ out_attrs a)
+            items').
+(* propagateTTMLAttributes without "if len(dimensions) > 1" (line 392) *)
+Definition propagate_g (guard : bool) (a : tattrs) : res unit :=
+  let text_align := nth 16 (ta_s a) None in
+  let extent := nth 5 (ta_s a) None in
+  let origin := nth 12 (ta_s a) None in
+  let wmode := nth 22 (ta_s a) None in
+  do _ <- (if is_some text_align then do _ <- deref text_align (ttc_sub 386); Ok tt else Ok tt);
+  do _ <- (if is_some extent then
+             do e <- deref extent (ttc_sub 391);
+             let dimensions := split_byte 32 e in
+             if negb guard || Nat.ltb 1 (length dimensions) then
+               do _ <- index dimensions 0 (ttc_sub 393);
+               do _ <- index dimensions 1 (ttc_sub 394);
+               do _ <- index dimensions 1 (ttc_sub 399);
+               do tb <- ttc_is_tb wmode (ttc_sub 400);
+               if tb then do _ <- index dimensions 0 (ttc_sub 401); Ok tt else Ok tt
+             else Ok tt
+           else Ok tt);
+  if is_some origin then
+    do _ <- deref origin (ttc_sub 408);
+    do o <- deref origin (ttc_sub 411);
+    let coordinates := split_byte 32 o in
+    if Nat.ltb 1 (length coordinates) then
+      do _ <- index coordinates 0 (ttc_sub 413);
+      do _ <- index coordinates 1 (ttc_sub 414);
+      do tb <- ttc_is_tb wmode (ttc_sub 415);
+      if tb then do _ <- index coordinates 1 (ttc_sub 416); do _ <- index coordinates 0 (ttc_sub 417); Ok tt else Ok tt
+    else Ok tt
+  else Ok tt.
